@@ -6,6 +6,7 @@ from permuta import Av, Perm
 from permuta.permutils.statistics import PermutationStatistic
 
 from .. import avmodel, monitor
+from ..conv import dec, plain
 from ..oracle import classical as C
 from ..oracle import sorting as SO
 from ..oracle import stats as ST
@@ -25,7 +26,7 @@ ASSUMPTIONS = [
     "statistics 28-31 are taken in their implemented reading (step of two, intersected with records), see DESIGN §3",
 ]
 REQUIRED = ["named.checked", "listing.checked", "tools.distribution", "tools.preserved", "tools.transformed.nonempty", "tools.equidistributed",
-            "calls.Perm.count_inversions", "calls.Perm.holeyness", "calls.Perm.rtlmax_ltrmin_decomposition", "calls.Perm.cycle_decomp", "aliasing.mutated_results", "shortcuts.checked", "tool_faults.function_failed_once", "tool_faults.injected"]
+            "calls.Perm.count_inversions", "calls.Perm.holeyness", "calls.Perm.rtlmax_ltrmin_decomposition", "calls.Perm.cycle_decomp", "aliasing.mutated_results", "shortcuts.checked", "tool_faults.function_failed_once", "tool_faults.injected", "tools.class_with_empty_level_below_members"]
 MIN_NONTRIVIAL = 3000
 CTX = None
 MON = None
@@ -291,8 +292,11 @@ def own_values(stat, perms):
 
 def chk_distribution(ctx, basis, n):
     """distribution_for_length / distribution_up_to over all permutations (basis=None) or over Av(basis)"""
-    cls = Av([Perm(b) for b in basis]) if basis else None
-    members = [[Perm(t) for t in sorted(l)] for l in (avmodel.levels([tuple(b) for b in basis], n) if basis else [list(C.all_perms(i)) for i in range(n + 1)])]
+    patts = [dec(b) for b in basis] if basis else []
+    cls = Av(patts) if basis else None
+    members = [[Perm(t) for t in sorted(l)] for l in (avmodel.levels([plain(q) for q in patts], n) if basis else [list(C.all_perms(i)) for i in range(n + 1)])]
+    if basis and any(not l for l in members[:-1]) and any(members[i] for i in range(1, n + 1) if not members[i - 1]):
+        ctx.count("tools.class_with_empty_level_below_members")
     for idx in range(len(PermutationStatistic._STATISTICS)):
         stat = PermutationStatistic.get_by_index(idx)
         if stat.name.startswith("Holeyness") and n > HOLEY_MAX[ctx.tier]:
@@ -482,6 +486,15 @@ def run(ctx, spec):
         pool = [list(p) for k in (2, 3, 3, 4) for p in itertools.permutations(range(k))]
         if part == 0:
             chk_distribution(ctx, None, 5 if ctx.tier == "quick" else 6)
+        if part in (1, 2):
+            # classes given by mesh patterns need not be closed downwards: an empty level may sit below non-empty ones
+            full = lambda p: {"cls": "MeshPatt", "p": list(p), "s": [[x, y] for x in range(len(p) + 1) for y in range(len(p) + 1)]}
+            gap = [[full([0])], [full([0]), full([0, 1]), full([1, 0])], [full([0]), [0, 1, 2]], [full([0, 1]), full([1, 0])]][part - 1::2]
+            for basis in gap:
+                chk_distribution(ctx, basis, 4)
+            k = rng.randint(1, 3)
+            p = rng.sample(range(k), k)
+            chk_distribution(ctx, [{"cls": "MeshPatt", "p": p, "s": [[x, y] for x in range(k + 1) for y in range(k + 1) if rng.random() < 0.4]}, [0, 1, 2, 3]], 4)
         for _ in range(spec["classes"] // 8):
             basis = rng.sample(pool, rng.randint(1, 3))
             chk_distribution(ctx, basis, rng.randint(3, 5))
